@@ -43,6 +43,17 @@ func c09S1Worker(env *fw.Env) {
 				c09WedgedHSMS(env, c09S1Case{Index: i, Handler: "blocks (hsmsss)", End: end, Role: role})
 			}
 		}
+		// fire-and-forget senders parked on a full send queue (c09_async.go)
+		for _, end := range []string{"close", "peer-reset"} {
+			for _, recvPark := range []bool{true, false} {
+				i := k
+				k++
+				if !env.Mine(i) || !env.Want(i) {
+					continue
+				}
+				c09ParkedAsync(env, c09AsyncCase{Index: i, Active: (i+int64(rep))%2 == 0, End: end, RecvPark: recvPark})
+			}
+		}
 		for _, h := range []string{"blocks", "sends-inline"} {
 			for _, end := range []string{"close"} {
 				for _, role := range []string{"active", "passive"} {
